@@ -494,6 +494,9 @@ func genTaxCase(t *rapid.T) TaxCase {
 
 func judgeDocument(p docgen.Plan, o *vh.Obs) {
 	out := billrun.Run(p)
+	if p.CustomerRates != "" {
+		o.Class("customer-rates")
+	}
 	if out.Err != nil {
 		o.Class("calc-error")
 		o.Discard()
